@@ -154,3 +154,27 @@ Proof.
   change (go_while fuel _ _ ([], ?s)) with (go_while fuel (fun _ => Ret true) (fi_body fuel) ([], s)).
   rewrite (fi_loop t fuel (S (length inp)) fuel inp []) by lia. reflexivity.
 Qed.
+
+(* ---- Reader(r): forwards the items of newReader(r).iter() ------------------------------------------- *)
+Lemma copy_loop {A R} (items : list A) : forall j (out : list A) (rd : go_stream),
+  go_iter (R := R) (fun p => (fun _ (x : A) '(out__, rd__) => (let out__ := out__ ++ [x] in let t__2 := true in (if (negb t__2) then Brk (out__, rd__) else Next (out__, rd__)))) (fst p) (snd p))
+    (combine (zseq j (length items)) items) (out, rd)
+  = Next (out ++ items, rd).
+Proof.
+  induction items as [|x items IH]; intros j out rd; cbn [length].
+  - cbn. rewrite app_nil_r. reflexivity.
+  - rewrite zseq_cons. cbn [combine go_iter fst snd negb]. rewrite IH, <- app_assoc. reflexivity.
+Qed.
+
+Theorem imp_fasta_Reader fuel inp t : (length inp + 2 < fuel)%nat ->
+  imp_fastard_Reader fuel (Stream inp (term_code t) None)
+  = Ret (Stream [] (term_code t) None, map (fa_item t) (decode inp t)).
+Proof.
+  intros Hf. unfold imp_fastard_Reader. cbv zeta. rewrite (imp_fasta_iter fuel inp t Hf). cbn [go_call].
+  unfold go_range, indexed.
+  match goal with |- context [go_iter ?f ?l ?s] =>
+    replace (go_iter f l s) with (Next (R := go_stream * list (imp_fastard_Fasta * Z)) ([] ++ map (fa_item t) (decode inp t), Stream [] (term_code t) None)) end.
+  - reflexivity.
+  - symmetry. etransitivity; [|apply (copy_loop (map (fa_item t) (decode inp t)) 0 [] (Stream [] (term_code t) None))].
+    apply go_iter_ext. intros [j [fa e]] [o r] _. reflexivity.
+Qed.
